@@ -17,7 +17,8 @@
    * uniqueItems = true: no two items at different positions are the same value
      (floats compare as numbers: +0 and -0 are the same, NaN is the same as nothing);
    * an enum value (a number on the wire) is named by option i (1-based, in
-     declaration order) when it is i; 0 is <prefix>UNSPECIFIED; a rule may name
+     declaration order) when it is i; 0 is <prefix>UNSPECIFIED, nameable only
+     when the enum declares it explicitly as its first option; a rule may name
      an option with or without the enum's prefix;
    * key:uuid = the canonical text 8-4-4-4-12 of hexadecimal digits; key:id62 =
      22 characters of 0-9 A-Z a-z; key:custom / pattern = the (RE2) pattern finds
@@ -64,8 +65,9 @@ Definition full_name (env : enum_env) (name full : str) : Prop :=
 
 (* the number n is the value the option name [name] denotes *)
 Definition names_value (env : enum_env) (name : str) (n : Z) : Prop :=
-  exists i o f, nth_error (ee_options env) i = Some o /\ n = Z.of_nat (S i)
-                /\ full_name env o f /\ full_name env name f.
+  (exists i o f, nth_error (ee_options env) i = Some o /\ n = Z.of_nat (S i)
+                 /\ full_name env o f /\ full_name env name f)
+  \/ (n = 0 /\ exists z f, ee_zero env = Some z /\ full_name env z f /\ full_name env name f).
 
 Definition defined_value (env : enum_env) (n : Z) : Prop :=
   n = 0 \/ exists i o, nth_error (ee_options env) i = Some o /\ n = Z.of_nat (S i).
